@@ -94,7 +94,8 @@ def run(F, res, tier):
         res.ob("A2", "nav/%s/%d" % (f.path.rsplit("::", 1)[-1], ordn), "this NavigationTarget pairs its ranges with the file of the node they were read from",
                ok, where=f.loc(s["ln"]), how=why, reviewed=reviewed)
     # search hits: sink(find_file(node).file_id, node.text_range())
-    for nme in ("found_name", "found_name_ref", "found_type_name", "found_label"):
+    from rules import c06 as _c06
+    for nme in _c06.found_functions(F):
         f0 = F.fn("ide::def::search::FindUsages::" + nme)
         ok = False
         from lib import inline as IL
@@ -189,7 +190,7 @@ def run(F, res, tier):
     bad = [k for k, v in R["finish_sites"].items() if v["kind"] in ("NAME", "NAME_REF", "TYPE_NAME", "LABEL") and (v["tok"] > 1 or v["child"])]
     nn = sum(1 for v in R["finish_sites"].values() if v["kind"] in ("NAME", "NAME_REF", "TYPE_NAME", "LABEL"))
     res.ob("A4", "name-nodes-one-token", "name-like nodes wrap at most one token and no child node, so a name-like result covers a whole token (decided by engine P, see C07/N1)",
-           not bad and nn >= 18, where="crates/syntax/src/parser.rs", how="%d finish_node sites of name-like kinds, offending: %s" % (nn, bad))
+           not bad and nn >= 12, where="crates/syntax/src/parser.rs", how="%d finish_node sites of name-like kinds, offending: %s" % (nn, bad))
     # A5: syntax ranges are offsets into the text that was lexed; they are reported against the file's content. Both are
     # the same string only if parse_module lexes its `src` argument as it is (no stripped prefix, no normalisation)
     from rules import c01 as _c01
